@@ -489,6 +489,8 @@ impl<'a> RuleGen<'a> {
     fn out_for(&mut self, inp: &El) -> El {
         match inp {
             El::Syll(..) | El::Struct(..) if self.r.chance(1, 5) && self.bound_vars.iter().any(|v| v.1) => { let sv: Vec<u8> = self.bound_vars.iter().filter(|v| v.1).map(|v| v.0).collect(); El::Var(*self.r.pick(&sv), if self.r.chance(1, 3) { Some(Mods::one("stress", self.binval())) } else { None }) }
+            // a syllable replaced by a structure (`% > ⟨han⟩`)
+            El::Syll(..) | El::Struct(..) if self.c.structs && self.r.chance(1, 6) => El::Struct((0..self.r.range(1, 3)).map(|_| El::Ipa(rand_seg(self.r), None)).collect(), if self.r.chance(1, 4) { Some(Mods { feats: vec![], tone: Some(*self.r.pick(&RULE_TONES)) }) } else { None }, None),
             El::Syll(..) | El::Struct(..) => El::Mat(Mods { feats: vec![(if self.r.chance(1, 2) { "stress".into() } else { "sec.stress".into() }, self.binval())], tone: if self.r.chance(1, 3) { Some(*self.r.pick(&RULE_TONES)) } else { None } }, None),
             El::SyllB => El::SyllB,
             El::Set(v) => match self.r.below(4) { 0 | 1 => El::Set(v.iter().map(|_| El::Ipa(rand_seg(self.r), None)).collect()), 2 => El::Set(v.iter().map(|m| match m { El::Syll(..) | El::SyllB => El::Mat(Mods { feats: vec![], tone: Some(*self.r.pick(&RULE_TONES)) }, None), _ => if self.r.chance(1, 2) { El::Mat(self.set_mods(false), None) } else { El::Ipa(rand_seg(self.r), None) } }).collect()), _ => El::Mat(self.set_mods(true), None) },
@@ -513,7 +515,7 @@ impl<'a> RuleGen<'a> {
                 if inp.contains(&El::Ellipsis) { out = vec![] }
                 if out.is_empty() { return Rule { input: vec![Term::Els(inp)], output: vec![Term::Amp], ctx, exc } }
                 if self.c.bounds && self.r.chance(1, 14) { let k = self.r.below(out.len() + 1); out.insert(k, El::SyllB); }   // `C > $C`, `V C > V $ C`
-                if self.r.chance(1, 10) { out.push(El::Ipa(rand_seg(self.r), None)); }            // longer output: insertion after
+                if self.r.chance(1, 10) { let m = if self.r.chance(1, 3) { Some(self.set_mods(true)) } else { None }; out.push(El::Ipa(rand_seg(self.r), m)); }            // longer output: insertion after
                 else if out.len() > 1 && self.r.chance(1, 10) { out.pop(); }                        // shorter output: deletion of the rest
                 let mut rule = Rule { input: vec![Term::Els(inp)], output: vec![Term::Els(out)], ctx, exc };
                 if self.c.condensed && self.r.chance(1, 8) {
